@@ -53,8 +53,8 @@ def entries():
 
 
 SCHED = r'''
-import sys, json, threading, io, contextlib
-sys.path.insert(0, '/repo')
+import sys, json, threading, io, contextlib, os
+sys.path.insert(0, os.environ.get('ATHLIB_TREE', '/repo'))
 spec = json.loads(sys.argv[1])
 FILE, LINE, A, B = spec['file'], spec['line'], spec['a'], spec['b']
 import athlib
@@ -100,8 +100,8 @@ print(json.dumps(out))
 '''
 
 SEQ = r'''
-import sys, json, io, contextlib
-sys.path.insert(0, '/repo')
+import sys, json, io, contextlib, os
+sys.path.insert(0, os.environ.get('ATHLIB_TREE', '/repo'))
 import athlib
 c = json.loads(sys.argv[1])
 o = athlib
@@ -117,7 +117,7 @@ print(json.dumps(r))
 
 
 def _py(script, arg):
-    r = subprocess.run([sys.executable, '-c', script, json.dumps(arg)], capture_output=True, text=True, cwd='/repo', timeout=120)
+    r = subprocess.run([sys.executable, '-c', script, json.dumps(arg)], capture_output=True, text=True, cwd=os.environ.get('ATHLIB_TREE', '/repo'), timeout=120)
     if r.returncode != 0 or not r.stdout.strip():
         return None
     return json.loads(r.stdout.strip().splitlines()[-1])
